@@ -171,6 +171,13 @@ def gen_geo(rng, shape):
         lo = Fr(rng.randint(int(-90 * 8), int(lo_max * 8)), 8)
     lo = min(max(lo, Fr(-90)), Fr(90) - span)
     west = Fr(rng.randint(-180 * 8, 170 * 8), 8)
+    u = rng.random()
+    if u < 0.12:      # crossing the antimeridian (longitudes beyond 180)
+        west = Fr(180) - xres * rng.randint(0, ncol)
+    elif u < 0.22:    # 0..360 convention, possibly crossing 360
+        west = Fr(rng.choice([180, 270, 350, 358])) + Fr(rng.randint(0, 16), 8)
+    elif u < 0.27:    # west of -180
+        west = Fr(-180) - xres * rng.randint(1, ncol)
     if rng.random() < 0.75:  # north-up
         T = Affine(exact(xres), 0.0, exact(west), 0.0, exact(-yres), exact(lo + span))
     else:  # south-up
@@ -217,7 +224,7 @@ def case_xy(ctx, rng, T, cls, shape, nontriv):
     if via == "gis":
         err, val = call(gis.idxs_to_coords, np.array(idxs), T, shape, offset=offn)
     else:
-        flw = flw_of(shape, T, False)
+        flw = flw_of(shape, T, cls == "geo")
         err, val = call(flw.xy, np.array(idxs), offset=offn) if offn != "center" else call(flw.xy, np.array(idxs))
     if err is None:
         xs, ys = [float(v) for v in np.asarray(val[0]).ravel()], [float(v) for v in np.asarray(val[1]).ravel()]
@@ -319,7 +326,7 @@ def case_index(ctx, rng, T, cls, shape, nontriv):
     if via == "gis":
         err, val = call(gis.coords_to_idxs, np.array(xs), np.array(ys), T, shape, **kw)
     else:
-        err, val = call(flw_of(shape, T, False).index, np.array(xs), np.array(ys), **kw)
+        err, val = call(flw_of(shape, T, cls == "geo").index, np.array(xs), np.array(ys), **kw)
     impl = None if val is None else ints(val)
     ctx.count("index:" + (err or "ok") + ("" if default else ":op/prec"))
     ctx.count("index-points:" + out)
@@ -398,7 +405,7 @@ def case_rowcol(ctx, rng, T, cls, shape, nontriv):
 def case_bounds(ctx, rng, T, cls, shape, nontriv):
     from pyflwdir import gis_utils as gis
     nrow, ncol = shape
-    flw = flw_of(shape, T, False)
+    flw = flw_of(shape, T, cls == "geo")
     b = [float(v) for v in flw.bounds]
     ex = [float(v) for v in flw.extent]
     b2 = [float(v) for v in gis.array_bounds(nrow, ncol, T)]
